@@ -1014,8 +1014,65 @@ def oracle_submitters(case, obs):
     return v[:4]
 
 
+def run_scale(case):
+    """SCALE: `backlog` snapshots are pushed and accepted but no task is started (the step pool starts nothing by itself),
+    then `extra` more pushes are made behind that backlog; then the extra tasks (and the first few) are run.  One
+    observation at the end: who converted / sent what, on which thread, how often."""
+    n, extra = case['backlog'], case['extra']
+    b = Bench('det', ['ok'] * (n + extra))
+    try:
+        for _ in range(n + extra):
+            b.do_push()
+        jobs = len(b.pool.jobs)
+        for jid in list(range(n + 1, jobs + 1)) + list(range(1, min(3, jobs) + 1)):
+            b.do_start(jid)
+            b.do_finish(jid)
+            b.do_callback(jid)
+        o = b.observe()
+        o['jobs'] = jobs
+        # keep the observation small: the tasks that ran, plus counts
+        ran = [t for t in o['tasks'] if t['runs'] or t['sends'] or t['on_caller']]
+        o['tasks_total'] = len(o['tasks'])
+        o['tasks'] = ran
+        o['pending'] = len(o['pending']) if o['pending'] is not None else None
+        return {'final': o}
+    except Stalled as e:
+        return {'stalled': str(e), 'final': None}
+    finally:
+        b.close()
+
+
+def oracle_scale(case, obs):
+    v = []
+    if obs.get('bench_error'):
+        return v
+    if obs.get('stalled'):
+        return ['no progress: ' + obs['stalled']]
+    o = obs['final']
+    n, extra = case['backlog'], case['extra']
+    where = f'{extra} push(es) made behind a backlog of {n} accepted, not yet started tasks'
+    if o['caller_sends']:
+        v.append(f'{where}: snapshot(s) {o["caller_sends"]} were converted / sent on the application thread that pushed them')
+    for t in o['tasks']:
+        if t['on_caller']:
+            v.append(f'{where}: task {t["id"]} ran on the thread that pushed it')
+        if t['runs'] > 1 or t['sends'] > 1:
+            v.append(f'{where}: task {t["id"]} ran {t["runs"]} times / was sent {t["sends"]} times')
+    for k, name, is_exc in o['refusals']:
+        v.append(f'{where}: push of snapshot {k}: {name} (the handler is open: every push must be accepted for the pool)')
+    if o['tasks_total'] != n + extra:
+        v.append(f'{where}: {o["tasks_total"]} tasks reached the pool, {n + extra} snapshots were pushed')
+    sent = {t['id'] for t in o['tasks'] if t['sends'] == 1 and t['runs'] == 1}
+    want = set(range(n + 1, n + extra + 1)) | set(range(1, min(3, n + extra) + 1))
+    if not v and sent != want:
+        v.append(f'{where}: tasks run and sent exactly once {sorted(sent)}, expected {sorted(want)}')
+    return v[:4]
+
+
 def run_impl(case):
     try:
+        if case['mode'] == 'scale':
+            return run_scale(case)
         if case['mode'] == 'submitters':
             return run_submitters(case)
         return run_pool(case) if case['mode'] == 'pool' else run_det(case)
@@ -1257,6 +1314,9 @@ def gen(rng, tier):
             yield gen_submitters(rng)
         elif k % 24 == 11:
             yield gen_orphan(rng)
+        elif k in (17, 317):
+            # SCALE: pushes behind 1000..3000 accepted tasks none of which has been started (a few per run)
+            yield {'mode': 'scale', 'backlog': rng.choice([1024, 1100, rng.randint(1000, 3000)]), 'extra': rng.randint(1, 4)}
         else:
             yield gen_det(rng, tier)
 
@@ -1297,6 +1357,8 @@ def corpus():
         {'mode': 'submitters', 'before': [{'op': 'register', 'tag': 'w0'}, {'op': 'poll_update', 'hash': 'h1', 'ts': 1}],
          'after': [{'op': 'push'}, {'op': 'register', 'tag': 'late'}, {'op': 'unregister', 'handle': 0},
                    {'op': 'poll_update', 'hash': 'h2', 'ts': 2}, {'op': 'update_new_config', 'hash': 'h3', 'ts': 3}]},
+        # SCALE: three pushes behind 1100 accepted, unstarted tasks
+        {'mode': 'scale', 'backlog': 1100, 'extra': 3},
         # 20 failing tasks (the suite's test, with the schedule pinned)
         {'mode': 'det', 'outcomes': ['dies_exc', 'dies_base', 'send_exc'],
          'sched': [P, P, P, st(1), st(2), st(3), fi(3), fi(2), fi(1), F, cb(1), cb(2), cb(3)]},
@@ -1389,6 +1451,8 @@ def judge_state(case, o, where, pushes_after_close, outs):
 
 
 def oracle(case, obs):
+    if case['mode'] == 'scale':
+        return oracle_scale(case, obs)
     if case['mode'] == 'submitters':
         return oracle_submitters(case, obs)
     outs = accepted_outcomes(case, None)
@@ -1480,6 +1544,8 @@ def pool_model_sched(case):
 
 
 def model_request(case, obs):
+    if case['mode'] == 'scale':
+        return None          # thousands of tasks: judged by the oracle (the model's per-step trace would be quadratic)
     if case['mode'] == 'submitters':
         return {'submitters': [{'func': SUBMITTER_OF[op['op']], 'open': True} for op in case['before']] +
                               [{'func': SUBMITTER_OF[op['op']], 'open': False, 'no_handler': bool(case.get('no_handler'))}
@@ -1561,6 +1627,8 @@ def compare(case, obs, resp):
 
 
 def _features(case):
+    if case['mode'] == 'scale':
+        return {'backlog-%d' % case['backlog']}
     if case['mode'] == 'submitters':
         return {('no-handler/' if case.get('no_handler') else 'after-close/') +
                 '+'.join(sorted({op['op'] for op in case['after']}))}
@@ -1589,6 +1657,8 @@ def _features(case):
 
 def label(case, obs):
     f = _features(case)
+    if case['mode'] == 'scale':
+        return 'scale/' + '+'.join(sorted(f))
     if case['mode'] == 'submitters':
         return 'submitters/' + '+'.join(sorted(f))
     deg = 'degraded/' if (obs.get('bench_error') or any(o.get('degraded') for o in obs.get('trace') or [])
@@ -1604,6 +1674,10 @@ def nontrivial(case, obs):
 
 
 def shrink(case):
+    if case['mode'] == 'scale':
+        if case['extra'] > 1:
+            yield dict(case, extra=1)
+        return
     if case['mode'] == 'submitters':
         for i in range(len(case['before']) - 1, -1, -1):
             if case['before'][i]['op'] != 'register':
